@@ -7,6 +7,7 @@ import (
 	"sort"
 
 	"github.com/tellor-io/layer/x/oracle/types"
+	regTypes "github.com/tellor-io/layer/x/registry/types"
 
 	cosmomath "cosmossdk.io/math"
 )
@@ -16,7 +17,8 @@ func (k Keeper) WeightedMedian(ctx context.Context, reports []types.MicroReport,
 	values := make(map[string]cosmomath.LegacyDec)
 
 	for _, r := range reports {
-		val, ok := new(big.Int).SetString(r.Value, 16)
+		// the value is stored as submitted; validation accepts an optional 0x prefix
+		val, ok := new(big.Int).SetString(regTypes.Remove0xPrefix(r.Value), 16)
 		if !ok {
 			k.Logger(ctx).Error("WeightedMedian", "error", "failed to parse value")
 			return nil, errors.New("failed to parse value")
